@@ -57,8 +57,8 @@ def check(ctx):
     analyzer = purity.make_analyzer(ctx.program,
                                     max_depth=6 if ctx.tier == 'thorough'
                                     else 4)
-    purity.check_pure(ctx, analyzer)
-    purity.check_det(ctx, depth=5 if ctx.tier == 'thorough' else 3)
+    ctx.run(purity.check_pure, analyzer)
+    ctx.run(purity.check_det, depth=5 if ctx.tier == 'thorough' else 3)
 
 
 def _body_start(fun):
